@@ -162,3 +162,24 @@ func VerifC16NegUnique() {
 	b := generateIdentifier("req")
 	verifrt.Assert(a != b, "NEGATIVE TWIN: identifiers differ even for identical random draws")
 }
+
+// VerifC16TwoRequests: two requests that carry the SAME client-supplied
+// request ID and no trace header: the two generated trace IDs are equal only
+// if the two random draws are (generated IDs are unique across requests).
+func VerifC16TwoRequests() {
+	var cfg config.LoggingConfig
+	cfg.RequestID.Enabled = true
+	cfg.Trace.Enabled = true
+	var ids [2]string
+	for i := 0; i < 2; i++ {
+		next := &verifNext{}
+		h := RequestContextMiddleware(cfg)(next)
+		r := &http.Request{Method: "GET", URL: &url.URL{Path: "/x"}, Header: http.Header{}, RemoteAddr: "10.0.0.1:1"}
+		r.Header.Set("X-Request-ID", "order-42-retry")
+		w := &verifWriter{hdr: http.Header{}}
+		h.ServeHTTP(w, r)
+		ids[i] = w.hdr.Get("X-Trace-ID")
+		verifrt.Assert(ids[i] != "" && ids[i] == next.req.Header.Get("X-Trace-ID"), "a trace ID is generated and is the same on both sides")
+	}
+	verifrt.Assert(verifrt.Implies(ids[0] == ids[1], verifrt.RandDrawsEqual()), "generated trace IDs of different requests are equal only if the random draws are equal")
+}
